@@ -183,7 +183,12 @@ int vh_case(uint64_t id, int tier)
                 char* txt = kx_fasta_text(&c.in, 0);
                 const char* inpath = vh_tmp("in.fa");
                 const char* outpath = vh_tmp("out.aln");
-                vh_write_file(inpath, txt, strlen(txt));
+                size_t tl = strlen(txt);
+                if(id % 3 == 1 && tl > 0 && c.in.len[c.in.n - 1] > 0){
+                        tl--;           /* last line without a terminating newline */
+                        vh_count("inputs_without_final_newline");
+                }
+                vh_write_file(inpath, txt, tl);
                 free(txt);
                 rc = kalign_read_input((char*)inpath, &m, 1);
                 if(rc == OK && m){
